@@ -171,12 +171,15 @@ func (ex *Exec) applyContract(s *State, fr *Frame, c *ssa.Call, f *ssa.Function,
 	// havoc
 	var hv []string
 	if ct.HasAssigns {
-		hv = ct.Assigns
+		hv = append([]string{}, ct.Assigns...)
 	} else {
 		for h := range ex.heapSorts {
 			hv = append(hv, h)
 		}
 		sort.Strings(hv)
+	}
+	for i, h := range hv {
+		hv[i] = ex.canonHeap(h)
 	}
 	for _, h := range hv {
 		if strings.HasPrefix(h, "*") {
@@ -269,8 +272,7 @@ func (ex *Exec) applyContract(s *State, fr *Frame, c *ssa.Call, f *ssa.Function,
 			}
 			if good && !unguarded {
 				o := &Obligation{Name: "aux/frame-guards", Assume: s.pc[:len(s.pc):len(s.pc)], Goal: Or(guardTerms...)}
-				res, _, _ := runSolver(context.Background(), "z3-new", o.Query(ex.st), 3*time.Second, false)
-				good = res == "unsat"
+				good = auxValid(ex.st, o, 3*time.Second)
 			}
 			if good {
 				s.serial++
@@ -438,11 +440,11 @@ func (ex *Exec) appendOp(s *State, fr *Frame, c *ssa.Call, args []Value) Value {
 	if !fits.IsFalse() && !fits.IsTrue() {
 		// decide the capacity test on this path if the solver can (three-index slices etc.)
 		o := &Obligation{Name: "aux/append-fits", Assume: s.pc[:len(s.pc):len(s.pc)], Goal: Not(fits)}
-		if res, _, _ := runSolver(context.Background(), "z3-new", o.Query(ex.st), 2*time.Second, false); res == "unsat" {
+		if auxValid(ex.st, o, 2*time.Second) {
 			fits = False
 		} else {
 			o2 := &Obligation{Name: "aux/append-fits", Assume: s.pc[:len(s.pc):len(s.pc)], Goal: fits}
-			if res, _, _ := runSolver(context.Background(), "z3-new", o2.Query(ex.st), 2*time.Second, false); res == "unsat" {
+			if auxValid(ex.st, o2, 2*time.Second) {
 				fits = True
 			}
 		}
@@ -548,7 +550,7 @@ func auxValid(st *Symtab, o *Obligation, timeout time.Duration) bool {
 		return v
 	}
 	// bounded by z3's deterministic resource counter (about 1-3 s of work), wall clock only as a backstop
-	res, _, _ := runSolverR(context.Background(), "z3-new", q, 30*timeout, false, 2000000)
+	res, _, _ := runSolverR(context.Background(), "z3-new", q, 30*timeout, false, int(2000000*timeout.Seconds()))
 	auxCache[key] = res == "unsat"
 	return res == "unsat"
 }
@@ -803,6 +805,38 @@ func (ex *Exec) external(s *State, fr *Frame, c *ssa.Call, full string, f *ssa.F
 		b := args[1].(SliceV)
 		s.assume(And(ICmp("<=", IntC(-1), r), ICmp("<=", IAdd(r, b.Len), a.Len)))
 		return ex.fromIdx(r), true
+	case "(*golang.org/x/text/collate.Buffer).Reset":
+		// collate.Buffer is append-only scratch; modelled by two ghost fields: the number of bytes
+		// it currently holds (scratchLen) and the byte object they live in
+		note()
+		b := args[0].(RefV)
+		ex.check(s, "safety", ex.obName(fr, "nilderef", c), Not(Eq(b.T, Null)), c.Pos(), "collate.Buffer.Reset on a nil buffer")
+		ln := s.H(ex, "collateBuf.len", ArrSort(SRef, SInt))
+		s.setH("collateBuf.len", Store(ln, b.T, IntC(0)))
+		ex.assignedHeaps["collateBuf.len"] = true
+		return nil, true
+	case "(*golang.org/x/text/collate.Collator).Key", "(*golang.org/x/text/collate.Collator).KeyFromString":
+		// Key appends the sort key of str to the buffer and returns the appended region - a slice
+		// INTO the buffer's storage (valid until the next Reset), not a copy. The region is modelled
+		// as a byte object of the distinguished allocation class scratchTypeID: it is not an
+		// ordinary heap byte object (atype 1000), so a key that is stored without being copied out
+		// is visible to the contracts. Its length and bytes are unconstrained.
+		note()
+		cl, b := args[0].(RefV), args[1].(RefV)
+		ex.check(s, "safety", ex.obName(fr, "nilderef", c), And(Not(Eq(cl.T, Null)), Not(Eq(b.T, Null))), c.Pos(), "collate.Collator.Key needs a collator and a buffer")
+		lnH := s.H(ex, "collateBuf.len", ArrSort(SRef, SInt))
+		oldLen := Select(lnH, b.T)
+		s.assume(ICmp("<=", IntC(0), oldLen))
+		L := ex.st.Fresh("collate.keylen", SInt)
+		s.assume(And(ICmp("<=", IntC(0), L), ICmp("<", L, IntC(1<<31))))
+		obj := s.newObject(ex, "collatebuf", scratchTypeID)
+		bl := s.H(ex, "blen", ArrSort(SRef, SInt))
+		s.setH("blen", Store(bl, obj, L))
+		bh := s.H(ex, "B", ex.bSort())
+		s.setH("B", Store(bh, obj, ex.st.Fresh("collate.bytes", ArrSort(SInt, ex.byteSort()))))
+		s.setH("collateBuf.len", Store(lnH, b.T, IAdd(oldLen, L)))
+		ex.assignedHeaps["collateBuf.len"], ex.assignedHeaps["B"] = true, true
+		return SliceV{Kind: SlBytes, Obj: obj, Off: IntC(0), Len: L, Cap: L, Elem: types.Typ[types.Uint8]}, true
 	case "(*sync.Pool).Get":
 		note()
 		{
@@ -1066,4 +1100,101 @@ func (ex *Exec) codecTransform(s *State, key Value) SliceV {
 	bl := s.H(ex, "blen", ArrSort(SRef, SInt))
 	s.setH("blen", Store(bl, obj, ln))
 	return SliceV{Kind: SlBytes, Obj: obj, Off: IntC(0), Len: ln, Cap: ln, Elem: types.Typ[types.Uint8]}
+}
+
+// checkCaptures: the `captures` clauses of the closure's contract are proved where the closure is
+// created (over the values the captured variables hold at that point); a static side condition
+// makes sure the creator does not write those variables afterwards.
+func (ex *Exec) checkCaptures(s *State, fr *Frame, mc *ssa.MakeClosure, bs []Value) {
+	f := mc.Fn.(*ssa.Function)
+	ct, name := ex.contractFor(f)
+	if ct == nil || len(ct.Captures) == 0 {
+		return
+	}
+	vars := map[string]Value{}
+	for i, fv := range f.FreeVars {
+		if pv, ok := bs[i].(PtrV); ok && pv.Kind == PCell {
+			vars[fv.Name()] = s.cells[pv.Cell]
+		} else {
+			vars[fv.Name()] = bs[i]
+		}
+		// stability: every write of the creator to the variable happens before the closure is made
+		ok, detail := true, ""
+		if al, isAl := mc.Bindings[i].(*ssa.Alloc); isAl {
+			for _, r := range *al.Referrers() {
+				switch r := r.(type) {
+				case *ssa.Store:
+					if r.Addr != al {
+						ok, detail = false, "address of "+fv.Name()+" is stored"
+						continue
+					}
+					sb, mb := r.Block(), mc.Block()
+					before := false
+					if sb == mb {
+						for _, in := range sb.Instrs {
+							if in == r {
+								before = true
+								break
+							}
+							if in == ssa.Instruction(mc) {
+								break
+							}
+						}
+					} else {
+						before = !reaches(mb, sb)
+					}
+					if !before {
+						ok, detail = false, "creator writes "+fv.Name()+" after creating the closure"
+					}
+				case *ssa.UnOp, *ssa.DebugRef:
+				case *ssa.MakeClosure:
+					if r != mc {
+						ok, detail = false, fv.Name()+" is shared with another closure"
+					}
+				default:
+					ok, detail = false, fmt.Sprintf("%s escapes through %T", fv.Name(), r)
+				}
+			}
+		}
+		caller := normName(fr.fn.RelString(ex.prog.SSA.Pkg))
+		oname := fmt.Sprintf("%s/%s/closure:%s/captures/stable:%s", ex.layer, caller, name, fv.Name())
+		if !ex.staticSeen[oname] {
+			if ex.staticSeen == nil {
+				ex.staticSeen = map[string]bool{}
+			}
+			ex.staticSeen[oname] = true
+			ex.obs = append(ex.obs, staticOb(oname, caller, "captured variable is not written after the closure is created", ok, detail))
+		}
+	}
+	env := &SpecEnv{ex: ex, cur: s, old: s, vars: vars, fn: f, calleeMode: true}
+	caller := normName(fr.fn.RelString(ex.prog.SSA.Pkg))
+	for i, r := range ct.Captures {
+		label := r.Label
+		if label == "" {
+			label = fmt.Sprintf("captures#%d", i+1)
+		}
+		g := env.evalProve(r.Expr)
+		ex.check(s, "captures", fmt.Sprintf("%s/%s/closure:%s@%s/%s", ex.layer, caller, name, ex.prog.SrcAnchor(mc.Pos()), label), g, mc.Pos(), r.Src)
+	}
+}
+
+// reaches: is block `to` reachable from block `from` (following successors)?
+func reaches(from, to *ssa.BasicBlock) bool {
+	seen := map[*ssa.BasicBlock]bool{}
+	var dfs func(b *ssa.BasicBlock) bool
+	dfs = func(b *ssa.BasicBlock) bool {
+		for _, s := range b.Succs {
+			if s == to {
+				return true
+			}
+			if !seen[s] {
+				seen[s] = true
+				if dfs(s) {
+					return true
+				}
+			}
+		}
+		return false
+	}
+	return dfs(from)
 }
